@@ -143,6 +143,7 @@ def _c10(tier, seed):
         jobs += J('c10.cpp', 'optim', be, n=3 if tier == 'quick' else 6, args=['part=basis'])
         jobs += J('c10.cpp', 'optim', be, n=1, args=['part=patterns'])
         jobs += J('c10.cpp', 'debug', be, n=1, args=['part=patterns'])
+        jobs += J('c10.cpp', 'optim', be, n=1, args=['part=threads'], env={'VF_GUARD': 'after'}, extra_src=['guardalloc.cpp'])   # freed tables fault deterministically
         if tier == 'thorough':
             jobs += J('c10.cpp', 'debug', be, n=6, args=['part=basis'])
     return jobs
